@@ -440,7 +440,8 @@ impl WorldGen {
 
     pub fn registry(&self, rng: &mut Rng) -> RegistrySpec {
         let prefix = match rng.below(3) {
-            0 => Some(rng.pick(&["pre", "a_b", "ns:x", "_p"]).to_string()),
+            // also prefixes that are the leading segment of a registered name ("req" + "req_total", "x_y" + "x_y_z", ...)
+            0 => Some(rng.pick(&["pre", "a_b", "ns:x", "_p", "req", "x_y", "x", "http", "m", "a"]).to_string()),
             _ => None,
         };
         let mut common = Vec::new();
